@@ -223,7 +223,34 @@ fn __verif_n_c15_signatures() {
             }
         }
     } }
-    let bound = format!("{cases} declarations of 29 structural libfuncs over {} member types (pairs for structs and enums), {accepted} accepted", uni.len());
+    // tuples <-> spans: `tuple_from_span<T>` only LOOKS at the array (its input is a snapshot), so what it
+    // hands out is the snapshot of Box<T> (for a duplicatable T that is Box<T> itself); `span_from_tuple<T>` is its inverse
+    for e in &uni {
+        let GenericArg::Type(e_id) = &e.arg else { continue };
+        let tuple = Parsed { decls: { let mut d = e.decls.clone(); d.push(crate::program::TypeDeclaration { id: "Tup".into(), long_id: long("Struct", vec![parse_arg(&value("ut@Tuple")).arg, e.arg.clone(), e.arg.clone()]), declared_type_info: None }); d }, arg: GenericArg::Type("Tup".into()), text: format!("Struct<ut@Tuple, {0}, {0}>", e.text) };
+        for lf_name in ["tuple_from_span", "span_from_tuple"] {
+            let mut p = assemble(&base, &[&tuple], &Target::Libfunc(lf_name.to_string()));
+            cases += 1;
+            let Ok(Some(reg)) = registry_autodecl(&mut p) else { continue };
+            accepted += 1;
+            let Ok(lf) = reg.get_libfunc(&"L".into()) else { continue };
+            let lid = |id: &crate::ids::ConcreteTypeId| reg.get_type(id).ok().map(|x| x.info().long_id.clone());
+            let ins: Vec<Option<ConcreteTypeLongId>> = lf.param_signatures().iter().map(|ps| lid(&ps.ty)).collect();
+            let outs: Vec<Vec<Option<ConcreteTypeLongId>>> = lf.branch_signatures().iter().map(|b| b.vars.iter().map(|v| lid(&v.ty)).collect()).collect();
+            let Some(t_info) = reg.get_type(&"Tup".into()).ok().map(|x| x.info().clone()) else { continue };
+            let Some(arr) = id_of(&p, &long("Array", vec![GenericArg::Type(e_id.clone())])) else { continue };
+            let span = Some(long("Snapshot", vec![GenericArg::Type(arr)]));
+            let boxed = long("Box", vec![GenericArg::Type("Tup".into())]);
+            let view = if t_info.duplicatable { Some(boxed.clone()) } else { match id_of(&p, &boxed) { Some(b) => Some(long("Snapshot", vec![GenericArg::Type(b)])), None => continue } };
+            let (want_in, want_out) = if lf_name == "tuple_from_span" { (vec![span.clone()], vec![vec![view.clone()], vec![]]) } else { (vec![view.clone()], vec![vec![span.clone()]]) };
+            if ins != want_in || outs != want_out {
+                let show = |v: &Vec<Option<ConcreteTypeLongId>>| v.iter().map(|x| x.as_ref().map(|l| l.to_string()).unwrap_or("?".into())).collect::<Vec<_>>().join(", ");
+                let shown = format!("{lf_name}<{}>", tuple.text);
+                if !fails.iter().any(|f| f.0 == format!("{lf_name} signature")) { fails.push((format!("{lf_name} signature"), shown.clone(), format!("`{shown}` has the signature ({}) -> {:?}, the typing rule says ({}) -> {:?}", show(&ins), outs.iter().map(show).collect::<Vec<_>>(), show(&want_in), want_out.iter().map(show).collect::<Vec<_>>()))); }
+            }
+        }
+    }
+    let bound = format!("{cases} declarations of 31 structural libfuncs over {} member types (pairs for structs and enums), {accepted} accepted", uni.len());
     for (k, (key, input, why)) in fails.iter().enumerate() {
         println!("VERIF-N id=N/n_c15_type_info/structural_signatures:{} status=fail key=\"{}\" input=\"{}\" detail=\"{}\" bound=\"{bound}\"", k + 1, key.replace('"', "'"), input.replace('"', "'"), why.replace('"', "'"));
     }
